@@ -150,8 +150,14 @@ class BlockSeries:
                     dimension_names=self.dimension_names,
                 )
 
+            view_shape = np.empty(self.shape)[item].shape
+            # Select the orders with length-1 slices rather than integers: an integer is
+            # an advanced index, and numpy moves the dimensions of advanced indices that
+            # are separated by a slice to the front, which would scramble the view.
             packed = BlockSeries(
-                eval=lambda *index: self[item + index].filled(zero),
+                eval=lambda *index: self[item + tuple(slice(i, i + 1) for i in index)]
+                .filled(zero)
+                .reshape(view_shape),
                 shape=(),
                 n_infinite=self.n_infinite,
             )
@@ -159,7 +165,7 @@ class BlockSeries:
                 eval=lambda *index: packed[index[-self.n_infinite :]][
                     index[: -self.n_infinite]
                 ],
-                shape=np.empty(self.shape)[item].shape,
+                shape=view_shape,
                 n_infinite=self.n_infinite,
                 dimension_names=self.dimension_names,
             )
